@@ -39,6 +39,7 @@ fn main() {
         "C30" => props::c30::run(&mut ctx),
         "C34" => props::c34::run(&mut ctx),
         "C36" => props::c36::run(&mut ctx),
+        "C37" => props::c37::run(&mut ctx),
         "C38" => props::c38::run(&mut ctx),
         "C39" => props::c39::run(&mut ctx),
         other => {
